@@ -6,10 +6,12 @@
 // node types are cached per C++ type, and the body of DynSub is data, not a type.
 #include "hgv_io.h"
 
+#include <hgraph/lib/std/std_operators.h>
 #include <hgraph/runtime/runtime.h>
 #include <hgraph/types/graph_wiring.h>
 #include <hgraph/types/static_node.h>
 #include <hgraph/types/subgraph_wiring.h>
+#include <hgraph/types/wired_fn.h>
 
 #include <map>
 #include <string>
@@ -33,6 +35,7 @@ namespace
         std::map<std::int64_t, std::map<std::int64_t, std::int64_t>> script;   // source -> time -> value (sources 0,1 = xs[0],xs[1]; 2 = y)
         std::vector<BodyNode>                                  body;
         std::int64_t                                           passive_mask{0};   // bit 0: xs passed passive(), bit 1: y
+        std::vector<BodyNode>                                  sw_body;           // unary chain run inside a switch_ branch (variants 3, 4)
     };
     Case     g_case;
     hgv::Out *g_out = nullptr;
@@ -75,6 +78,21 @@ namespace
         }
     };
 
+    // the switch key: scripted like the others (source 3)
+    struct KeySrc
+    {
+        static constexpr auto name              = "hgv_key_src";
+        static constexpr bool schedule_on_start = true;
+        static void           eval(NodeScheduler sched, Out<TS<Int>> out, DateTime now)
+        {
+            const std::int64_t t  = us(now);
+            auto               it = g_case.script[3].find(t);
+            if (it != g_case.script[3].end()) { out.set(Int{it->second}); }
+            auto nx = g_case.script[3].upper_bound(t);
+            if (nx != g_case.script[3].end()) { sched.schedule(DateTime{TimeDelta{nx->first}}); }
+        }
+    };
+
     // ---- body vocabulary ----
     struct Scale
     {
@@ -104,6 +122,12 @@ namespace
             sum.set(sum.get() + in.value());
             out.set(sum.get());
         }
+    };
+    // passes its input on only when the input reads as MODIFIED in this cycle (the tree's own EchoOnce guard)
+    struct EchoMod
+    {
+        static constexpr auto name = "hgv_echo_mod";
+        static void           eval(In<"in", TS<Int>> in, Out<TS<Int>> out) { if (in.modified()) { out.set(in.value()); } }
     };
     struct Sink
     {
@@ -151,6 +175,48 @@ namespace
         static Port<TS<Int>>  compose(Wiring &w, Port<IntPair> xs, Port<TS<Int>> y) { return nested_<DynSub>(w, xs, y); }
     };
 
+    // the body of a switch_ branch: a unary chain over the branch argument (ops 1 scale(k), 2 neg, 5 acc, 8 echo_mod);
+    // ND = 0 wired inline in the branch, ND = 1 wrapped in nested_<>: a nested node that STARTS MID-RUN
+    template <int ND>
+    struct SwBody
+    {
+        static constexpr auto name = "hgv_sw_body";
+        static Port<TS<Int>>  compose(Wiring &w, Port<TS<Int>> a)
+        {
+            if constexpr (ND == 1) { return nested_<SwBody<0>>(w, a); }
+            else
+            {
+                Port<TS<Int>> cur = a;
+                for (const BodyNode &n : g_case.sw_body)
+                {
+                    switch (n.op)
+                    {
+                        case 1: cur = wire<Scale>(w, cur, Int{n.k}); break;
+                        case 2: cur = wire<Neg>(w, cur); break;
+                        case 5: cur = wire<Acc>(w, cur); break;
+                        default: cur = wire<EchoMod>(w, cur); break;
+                    }
+                }
+                return cur;
+            }
+        }
+    };
+
+    template <int ND>
+    struct SwRoot
+    {
+        static constexpr auto name = "hgv_sw_root";
+        static void           compose(Wiring &w)
+        {
+            auto                key = wire<KeySrc>(w);
+            auto                a   = wire<ScalarSrc>(w);
+            stdlib::SwitchCases cases;
+            cases.cases.push_back(stdlib::SwitchCase{Value{Int{1}}, fn<SwBody<ND>>()});
+            auto sw = wire<stdlib::switch_>(w, key, cases, a);
+            wire<Sink>(w, sw.template as<TS<Int>>(), Int{3 + ND});
+        }
+    };
+
     template <int Depth>
     struct Root
     {
@@ -168,6 +234,27 @@ namespace
             wire<Sink>(w, out, Int{Depth});
         }
     };
+
+    template <int ND>
+    void run_switch_variant()
+    {
+        try
+        {
+            GraphBuilder gb       = build_graph<SwRoot<ND>>();
+            auto         executor = GraphExecutorBuilder{}
+                                .graph_builder(std::move(gb))
+                                .start_time(DateTime{TimeDelta{g_case.start}})
+                                .end_time(DateTime{TimeDelta{g_case.end}})
+                                .make_executor();
+            executor.view().run();
+            g_out->line({31, 3 + ND});
+        }
+        catch (const std::exception &e)
+        {
+            g_out->line({39, 3 + ND});
+            std::fprintf(stderr, "switch variant %d: %s\n", ND, e.what());
+        }
+    }
 
     template <int Depth>
     void run_variant()
@@ -200,11 +287,17 @@ namespace
             else if (l[0] == 2) { g_case.script[l[1]][l[2]] = l[3]; }
             else if (l[0] == 3) { g_case.body.push_back({l[1], l[2], l[3], l[4]}); }
             else if (l[0] == 4) { g_case.passive_mask = l[1]; }
+            else if (l[0] == 5) { g_case.sw_body.push_back({l[1], 0, 0, l[2]}); }
         }
         if (g_case.body.empty()) { g_case.body.push_back({1, 0, 0, 1}); }
         run_variant<0>();
         run_variant<1>();
         run_variant<2>();
+        if (!g_case.sw_body.empty())
+        {
+            run_switch_variant<0>();
+            run_switch_variant<1>();
+        }
     }
 }  // namespace
 
@@ -212,6 +305,7 @@ int main(int argc, char **argv)
 {
     if (argc < 2) { std::fprintf(stderr, "usage: nestw_driver <batch>\n"); return 2; }
     auto batch = hgv::read_batch(argv[1]);
+    hgraph::stdlib::register_standard_operators();
     for (const auto &c : batch)
     {
         std::fflush(stdout);
